@@ -16,7 +16,8 @@ RULE = ('documents built through the real engine: table T with Choice columns Ch
         'null, nested lists and objects), empty text, {} ; rename maps of 0-3 entries incl. swaps (30%), 3-cycles, '
         'chains x->y,y->z, identity, the empty-string key, unused keys; target column Ch, CL, FCh or FCL. Separate '
         'streams: range filters ({"min":..}) and relative-date bounds on the column, malformed filters (string '
-        'entries, non-object JSON; model only), non-string rename targets (frame only). A case is non-trivial when the '
+        'entries, non-object JSON; model only), non-string rename targets (frame only), and the witnesses of the three '
+        'repaired defects (run first). A case is non-trivial when the '
         'action changed a cell or a filter, or raised')
 TRUSTED = ['Model/Choices.v is hand-written; tied to the running RenameChoices by evaluating both on the same generated '
            'column contents, filters and rename maps on every run (vm_compute inside Coq)',
@@ -26,20 +27,22 @@ TRUSTED = ['Model/Choices.v is hand-written; tied to the running RenameChoices b
            'is the identity on strings / tuples of strings (part of the correspondence)']
 ASSUMPTIONS = ['rename maps are dicts str -> str (a non-string target is converted by the column type: None becomes '
                "'None' in a ChoiceList and is ignored in a Choice column; checked only against the frame part)",
-               'the saved filter text of the column is empty or valid JSON',
+               'the saved filter text of the column is empty or a JSON object (hypothesis filters_are_objects of '
+               'C39_full_statement; other JSON makes .items() raise AttributeError, C39_non_object_filter_raises)',
                'formula columns are not renamed by design (they recalculate); their filters are']
 TECHNIQUE = 'Coq proof over a hand-written model + differential cases through the real engine + naive substitution oracle'
-LEVEL_TEXT = ('Kernel-checked theorems, for all column contents, filters and rename maps: whenever RenameChoices '
-              'succeeds, the target column is the cell-wise simultaneous substitution (Choice cells, every element of '
-              'ChoiceList cells; swaps and cycles work), every other column is identical, cells and elements outside '
-              'the mapping keep value and position, the filters of the column in by-value form are the same '
-              'substitution on their string elements (rewritten only when changed), filters of other columns are not '
-              'touched. The unchanged code violates "any mapping / all filters": C39_refuted_* (empty-string choice on '
-              'a Choice column, range/relative-date filters); the positive theorems carry the narrowest hypotheses '
-              'excluding these. Model compared with the running engine each run; naive oracle run on the implementation.')
-LEVEL_NOTE = ('Trusted: Coq kernel, json parser/serializer, value encoder. Known findings: RenameChoices raises for a '
-              'mapping with the empty-string key on a Choice column, and raises or corrupts the filter when the column '
-              'has a range filter.')
+LEVEL_TEXT = ('Kernel-checked theorem C39_full_statement, for all table states, column contents, saved filters and rename '
+              'maps (only hypothesis: the filters of the column are empty or JSON objects): RenameChoices succeeds, every '
+              "record's cell of the target column is the simultaneous substitution (Choice cells, every element of "
+              'ChoiceList cells; swaps and cycles work), other storage slots and every other column are identical, the '
+              'by-value lists of the saved filters of the column are the same substitution (range bounds kept, text '
+              'rewritten only when changed), filters of other columns are not touched; plus frame theorems per cell, '
+              'element, column and filter value. The model follows the code as repaired by commits 789e828 and '
+              '9e0465d; it is compared with the running engine each run, the naive oracle runs on the implementation, '
+              'and the witnesses of the three repaired defects are replayed first.')
+LEVEL_NOTE = ('Trusted: Coq kernel, json parser/serializer, value encoder. Repaired findings (kept as regression '
+              'witnesses): empty-string key on a Choice column raised AssertionError (789e828); a range filter raised '
+              'TypeError and a relative-date bound was replaced by its keys (9e0465d).')
 
 logging.disable(logging.CRITICAL)
 
@@ -296,14 +299,16 @@ def oracle(e_before_snap, slots_before, filters_before, e, col, ren_pairs, exc, 
         return ('oracle', 'filter #%d of another column changed' % r)
       continue
     cls = classify_filter(tb)
-    if cls in ('empty', 'range'):
+    if cls == 'empty':
       if ta != tb:
-        if cls == 'range':
-          return ('range-filter-rewritten', 'range filter %s of the column was rewritten to %s' % (tb, ta))
         return ('oracle', 'empty filter #%d changed' % r)
       continue
     jb = json.loads(tb)
-    exp = {k: [(ren.get(x, x) if isinstance(x, str) else x) for x in v] for k, v in jb.items()}
+    # by-value lists are substituted, range bounds (min/max) are kept
+    exp = {k: ([(ren.get(x, x) if isinstance(x, str) else x) for x in v] if isinstance(v, list) else v)
+           for k, v in jb.items()}
+    if cls == 'range' and strict_eq(exp, jb) and ta != tb:
+      return ('range-filter-rewritten', 'range filter %s of the column was rewritten to %s' % (tb, ta))
     if not judge_targets:
       continue
     if strict_eq(exp, jb):
@@ -421,6 +426,11 @@ def correspond(ctx):
       coq.append(c)
       info.append(w)
 
+  # witnesses of repaired findings stay in the corpus and are run first, so a regression is re-found at once
+  for k in core.load_known():
+    if k['property'] == ID and k.get('kind') == 'fixed' and k.get('witness'):
+      w = k['witness']
+      run(w['doc'], w['col'], w['ren'], 'regression:' + k['id'])
   for _ in range(ctx.n(220, 2500)):
     doc = gen_doc(ctx.rng, 'byvalue')
     run(doc, ctx.rng.choice(TARGETS), gen_renames(ctx.rng), 'main')
